@@ -265,6 +265,13 @@ def cases(draw):
         if lang == "rs":
             f["order"] = draw(st.sampled_from(["grouped", "structs-first", "impls-first"]))
         files.append(f)
+    # two outer classes of a Python file may both hold a nested class of the same name (Django's `class Meta`)
+    for fi, f in enumerate(files):
+        if f["lang"] == "py":
+            inner = [n for c in f["classes"] for n in c.get("nested", [])]
+            if len(inner) >= 2 and draw(st.booleans()):
+                for n in inner:
+                    n["name"] = f"Meta{fi}"
     # docs do not say whether a custom keyword list replaces or extends the defaults: keep every default keyword that
     # occurs in a name (in any letter case) inside the custom list
     kws = config["top"].get("keywords")
@@ -360,7 +367,14 @@ def check(case) -> Case:
                 if info["generic"]:
                     labels.append(f"{lang}:generic")
                 shape_classes.append([lang, info["kinds"], fired, mrel, lrel, info["has_blank_or_comment"], info["abstract"], info["generic"]])
-                obs = got.pop(info["name"], [])
+                if sum(1 for x in infos if x["name"] == info["name"]) > 1:
+                    # several classes of one file share this name (nested `class Meta` in two outer classes): told apart by line
+                    obs = [o for o in got.get(info["name"], []) if o[0] == info["line"]]
+                    got[info["name"]] = [o for o in got.get(info["name"], []) if o[0] != info["line"]]
+                    if not got[info["name"]]:
+                        got.pop(info["name"])
+                else:
+                    obs = got.pop(info["name"], [])
                 bad = _judge(info, exp, obs)
                 if bad is None:
                     continue
